@@ -79,7 +79,7 @@ Judge(e) ==
          <<IF SizeDrop(m, lb, ub) THEN 1 ELSE 0,
            IF PrefixDrop(pxs, pys, lp, rp) THEN 1 ELSE 0,
            IF PositionPairDrop(pxs, pys, lp, rp, ot) THEN 1 ELSE 0,
-           IF SuffixPairDrop(pxs, pys, lp, rp, ot) THEN 1 ELSE 0>>
+           IF SuffixPairDropR(pxs, pys, lp, rp, ot) THEN 1 ELSE 0>>
       (* find_candidates: probe = y (size m), indexed = x (size n) *)
       ModelTab(lp, rp, lbp, ubp, ot) ==
          <<IF n > 0 /\ lbp <= m /\ lbp <= n /\ n <= ubp THEN 1 ELSE 0,
